@@ -13,6 +13,9 @@ def gens(tier, seed):
     scs += core.gen_inflight(full=(tier != "quick"))
     scs += core.gen_scripted_loss()
     scs += core.gen_badreply()
+    scs += core.gen_listeners()
+    scs += core.gen_rstlate()
+    scs += core.gen_pollers()
     scs += core.gen_stale_loss(r, 600 if tier == "quick" else 8000)
     scs += core.gen_random(r, 1200 if tier == "quick" else 25000)
     return scs
